@@ -182,6 +182,7 @@ def check(ctx):
             ctx.ob("a.totality", "%s|%s|%s" % (f.name, s["kind"], s["what"]), False, "may-panic std call without a discharge rule", loc)
     ctx.anchor("panic sources inventoried in the hand-written parser", nsites, 20)
 
+    check_number_types(ctx, P)
     check_case(ctx, A)
     check_grammar_case(ctx, G)
     check_overwrite(ctx, P)
@@ -356,6 +357,36 @@ def check_grammar_case(ctx, G):
                    "grammar rule `%s` matches the literal %r case-sensitively: a file spelling it in another case is rejected or mis-parsed" % (name, v),
                    "gsd-parser/src/gsd.pest (%s)" % name)
     ctx.anchor("alphabetic literals in the grammar", n, 20)
+    # line breaks: every line-ending style is accepted only through the NEWLINE builtin ("\n" | "\r\n" | "\r"); a literal "\n" / "\r"
+    # in a rule accepts one style only (CR LF files would fail or be read differently)
+    nn = 0
+    for name, r in sorted(G.rules.items()):
+        acc = []
+        walk(r["expr"], acc)
+        for k, v in acc:
+            if "\n" in v or "\r" in v:
+                nn += 1
+                ctx.ob("f.continuation", "grammar-newline-literal|%s" % name, False,
+                       "grammar rule `%s` matches the line break literally (%r) instead of with NEWLINE: only one line-ending style is accepted there" % (name, v),
+                       "gsd-parser/src/gsd.pest (%s)" % name)
+    ctx.ob("f.continuation", "grammar-newline-literals", nn == 0, "%d literal line breaks in the grammar" % nn)
+
+
+def check_number_types(ctx, P):
+    """g.signed: parse_number::<T> converts through u32 (T: TryFrom<u32>); a signed target type instantiated there can never hold a negative
+    value, so signed quantities (defaults, ranges, text indices of ExtUserPrmData) must not be parsed through it."""
+    n = 0
+    for f in P.crate_fns(CRATE):
+        if generated(f.name):
+            continue
+        for b, c in call_sites(f):
+            if (c.get("callee") or "") == "parser::parse_number" or (c.get("callee") or "").endswith("::parse_number"):
+                n += 1
+                ty = (c.get("rsubsts") or c.get("substs") or ["?"])[0]
+                ok = not re.match(r"^i(8|16|32|64|128|size)$", ty)
+                ctx.ob("g.signed", "parse_number-instantiation|%s|%s" % (f.name, ty), ok,
+                       "parse_number::<%s> parses through u32: negative values of this signed quantity are rejected (use the signed parser)" % ty, f.loc(b))
+    ctx.anchor("parse_number call sites", n, 20)
 
 
 def check_continuation(ctx, P):
@@ -552,6 +583,23 @@ def check_tables(ctx, P):
             ok = fields == ["b%d" % rate]
             ctx.ob("c.tables", "maxtsdr|%s" % k, ok, "keyword `%s` (%d bit/s) stores into max_tsdr.%s, expected [b%d]" % (k, rate, fields, rate), f.loc(b))
     ctx.anchor("<rate>_supp keyword arms", nsupp, 11)
+    # the flag constants themselves: distinct single bits (two speeds sharing a bit would be reported together)
+    vals = {}
+    for k, entry, b in arms:
+        for rb in dominated(f, entry):
+            t = f.blocks[rb].term
+            if "call" in t and "bitor_assign" in (t["call"].get("callee") or ""):
+                for a in t["call"]["args"]:
+                    kk = a.get("k") or {}
+                    ci = kk.get("const_item")
+                    if ci:
+                        try:
+                            vals[ci.split("::")[-1]] = int(kk["fields"][0]["fields"][0]["int"])
+                        except Exception:
+                            vals[ci.split("::")[-1]] = None
+    bits = [v for v in vals.values()]
+    okb = len(vals) >= 11 and all(v is not None and v > 0 and (v & (v - 1)) == 0 for v in bits) and len(set(bits)) == len(bits)
+    ctx.ob("c.tables", "speed-flags-distinct", okb, "SupportedSpeeds constants must be distinct single bits, found %s" % dict(sorted(vals.items())), f.loc(0))
     ctx.anchor("MaxTsdr_<rate> keyword arms", ntsdr, 11)
 
 
